@@ -498,13 +498,77 @@ func ruleRawFlagPairing(c *Check, p *Program, rule string) {
 	}
 	bad := false
 	var why string
-	var walk func(b *ssa.BasicBlock, s st, seen map[*ssa.BasicBlock]bool)
-	walk = func(b *ssa.BasicBlock, s st, seen map[*ssa.BasicBlock]bool) {
+	// bit 31 of a size word assembled in place (flag | len&mask), on the path being walked: 1, 0, or -2 (unknown)
+	var bit31 func(v ssa.Value, phis map[*ssa.Phi]ssa.Value, depth int) int
+	bit31 = func(v ssa.Value, phis map[*ssa.Phi]ssa.Value, depth int) int {
+		if depth > 6 {
+			return -2
+		}
+		switch x := v.(type) {
+		case *ssa.Const:
+			if k, ok := constUint(x); ok {
+				return int(k >> 31 & 1)
+			}
+		case *ssa.Phi:
+			if e, ok := phis[x]; ok {
+				return bit31(e, phis, depth+1)
+			}
+		case *ssa.Convert:
+			return bit31(x.X, phis, depth+1)
+		case *ssa.ChangeType:
+			return bit31(x.X, phis, depth+1)
+		case *ssa.BinOp:
+			l, r := bit31(x.X, phis, depth+1), bit31(x.Y, phis, depth+1)
+			switch x.Op {
+			case token.OR:
+				if l == 1 || r == 1 {
+					return 1
+				}
+				if l == 0 && r == 0 {
+					return 0
+				}
+			case token.AND:
+				if l == 0 || r == 0 {
+					return 0
+				}
+				if l == 1 && r == 1 {
+					return 1
+				}
+			case token.AND_NOT:
+				if r == 1 || l == 0 {
+					return 0
+				}
+			}
+		}
+		return -2
+	}
+	var walk func(b, from *ssa.BasicBlock, s st, phis map[*ssa.Phi]ssa.Value, seen map[*ssa.BasicBlock]bool)
+	walk = func(b, from *ssa.BasicBlock, s st, phis map[*ssa.Phi]ssa.Value, seen map[*ssa.BasicBlock]bool) {
 		if seen[b] {
 			return
 		}
 		seen[b] = true
 		defer delete(seen, b)
+		if from != nil {
+			np := map[*ssa.Phi]ssa.Value{}
+			for k, v := range phis {
+				np[k] = v
+			}
+			for pi, pr := range b.Preds {
+				if pr != from {
+					continue
+				}
+				for _, in := range b.Instrs {
+					ph, isPhi := in.(*ssa.Phi)
+					if !isPhi {
+						break
+					}
+					np[ph] = ph.Edges[pi]
+				}
+				break
+			}
+			phis = np
+		}
 		for _, in := range b.Instrs {
 			switch x := in.(type) {
 			case *ssa.Store:
@@ -514,6 +578,10 @@ func ruleRawFlagPairing(c *Check, p *Program, rule string) {
 					} else {
 						s.dataSrc = 0
 					}
+				}
+				if lastField(x.Addr) == "FrameDataBlock.Size" {
+					// the whole size word written at once: its top bit is the raw flag
+					s.flag = bit31(x.Val, phis, 0)
 				}
 			case ssa.CallInstruction:
 				if calleeIs(x, pkgStream, "DataBlockSize.UncompressedSet") {
@@ -535,10 +603,10 @@ func ruleRawFlagPairing(c *Check, p *Program, rule string) {
 			}
 		}
 		for _, su := range b.Succs {
-			walk(su, s, seen)
+			walk(su, b, s, phis, seen)
 		}
 	}
-	walk(fn.Blocks[0], st{-1, -1}, map[*ssa.BasicBlock]bool{})
+	walk(fn.Blocks[0], nil, st{-1, -1}, map[*ssa.Phi]ssa.Value{}, map[*ssa.BasicBlock]bool{})
 	c.Cond(!bad, rule, "Compress#raw-flag-matches-data", stores[0].pos, "on every path through Compress the raw-block flag is set exactly when b.Data is the source and cleared exactly when it is the compressed buffer (the FrameDataBlock is reused across blocks)", "all paths agree", why)
 	// the source is stored raw exactly when the compressor returned 0
 	okZero := false
@@ -570,6 +638,32 @@ func ruleRawFlagPairing(c *Check, p *Program, rule string) {
 			}
 		}
 	}
+	// or the size word is written at once with len(b.Data) in its low bits
+	allInstrs(fn, func(in ssa.Instruction) {
+		st, ok := in.(*ssa.Store)
+		if !ok || lastField(st.Addr) != "FrameDataBlock.Size" {
+			return
+		}
+		hasLen := false
+		walkBack(st.Val, true, func(x ssa.Value) bool {
+			if call, isC := x.(*ssa.Call); isC {
+				if b, isB := call.Call.Value.(*ssa.Builtin); isB && b.Name() == "len" && loadField(call.Call.Args[0]) == "FrameDataBlock.Data" {
+					hasLen = true
+				}
+				return false
+			}
+			return true
+		})
+		isStore := func(j ssa.Instruction) bool {
+			s2, ok2 := j.(*ssa.Store)
+			return ok2 && lastField(s2.Addr) == "FrameDataBlock.Data"
+		}
+		if hasLen {
+			if r, _ := reachAvoid(fn, in, isStore, nil); !r {
+				okSize = true
+			}
+		}
+	})
 	c.Cond(okSize, rule, "Compress#size-is-len-data", p.Pos(fn.Pos()), "the size word is len(b.Data) of the bytes finally selected", "sizeSet(len(b.Data)) follows the last store", "no sizeSet(len(b.Data)) after the final Data store")
 }
 
